@@ -103,6 +103,42 @@ def verdictOfJson (j : Json) : E (T → Verdict) := do
     return (id, callPredicate (← rawPOfString (← v.getStr?)))
   return fun t => (tbl.lookup t.id).getD .reject
 
+def optAtomJ (st : St) : Json → E (Option Atom)
+  | .null => .ok none
+  | x => do
+    let ai ← x.getNat?
+    let some a := st.pool[ai]? | throw "atom"
+    return some a
+
+/-- `"via"` of `w.add`: `none` = the general `add_child` / `add`. -/
+def viaOfJson : Json → E (Option Via)
+  | .null | .str "add" | .str "add_child" => .ok none
+  | .str "append_child" => .ok (some .appendChild)
+  | .str "prepend_child" => .ok (some .prependChild)
+  | .str "prepend_sibling" => .ok (some .prependSibling)
+  | .str "append_sibling" => .ok (some .appendSibling)
+  | j => .error s!"via {j.compress}"
+
+/-- the call goes through the `Tree` API (`tree.clear()`, `tree.sort()`): the path is empty and
+`"tree_api"` is not false. -/
+def isTreeApi (j : Json) (k : String) : E Bool := do
+  let path ← natList (← field j k)
+  let api ← (fieldD j "tree_api" (.bool true)).getBool?
+  return path.isEmpty && api
+
+/-
+  Wire operations whose meaning is resolved by the MODEL (`World.step`), not here:
+  * `w.add` with `"via"`: `"append_child"` / `"prepend_child"` are called on the node at path `"p"`,
+    `"prepend_sibling"` / `"append_sibling"` on the node at path `"ref"` (`"p"` and `"before"` are then
+    ignored); → `Op.addVia`.  `"kind"` is the `kind=` the caller passes (ignored by the sibling forms).
+  * `w.del` (new): `{"op": "w.del", "t": i, "a": <pool index | null>, "did": <data_id | null>}` =
+    `del tree[key]`; `"a"` = the key as a pool data object, `"did"` = the key as an int/str data_id
+    (hash values canonicalised like every data_id on the wire); both null = the key is a `Node`; → `Op.delItem`.
+  * `w.meta` with `"kind"` `"set"` (`"k"`, `"v"` = JSON text), `"clear"` (`"k"` or null), `"update"`
+    (`"vals"`, `"replace"`); → `Op.metaSet` / `Op.metaClear` / `Op.metaUpdate`.
+  * `w.removechildren` / `w.sort` with an empty path `"n"` and `"tree_api"` not false are `Tree.clear()` /
+    `Tree.sort()`; → `Op.clear` / `Op.sortTree` (`"deep"` absent or null = the default of `Tree.sort`).
+-/
 def handleWorld (st : St) (op : String) (j : Json) : Option (E (St × Json)) :=
   match op with
   | "w.reset" => some (pure ({ st with w := {} }, Json.mkObj [("res", .str "ok")]))
@@ -117,10 +153,15 @@ def handleWorld (st : St) (op : String) (j : Json) : Option (E (St × Json)) :=
     let p ← nodeAt t j "p"
     let ai ← (← field j "a").getNat?
     let some a := st.pool[ai]? | throw "atom"
-    let before ← beforeOfJson t (fieldD j "before" .null)
     let did ← optDidJ (fieldD j "did" .null)
     let kind ← optStr (fieldD j "kind" .null)
-    return exec st (.add i p.id a before did kind)
+    match ← viaOfJson (fieldD j "via" .null) with
+    | none =>
+      let before ← beforeOfJson t (fieldD j "before" .null)
+      return exec st (.add i p.id a before did kind)
+    | some via =>
+      let ref ← if via == .prependSibling || via == .appendSibling then nodeAt t j "ref" else pure p
+      return exec st (.addVia i ref.id a via did kind)
   | "w.addnode" => some do
     let (i, t) ← getTree st j
     let p ← nodeAt t j "p"
@@ -170,23 +211,21 @@ def handleWorld (st : St) (op : String) (j : Json) : Option (E (St × Json)) :=
   | "w.removechildren" => some do
     let (i, t) ← getTree st j
     let n ← nodeAt t j "n"
+    if ← isTreeApi j "n" then return exec st (.clear i)
     return exec st (.removeChildren i n.id)
   | "w.sort" => some do
     let (i, t) ← getTree st j
     let n ← nodeAt t j "n"
     let key ← keyOfJsonW (fieldD j "key" (.str "name"))
     let rev ← (fieldD j "reverse" (.bool false)).getBool?
+    if ← isTreeApi j "n" then
+      return exec st (.sortTree i key rev (← optBoolJ (fieldD j "deep" .null)))
     let deep ← (fieldD j "deep" (.bool false)).getBool?
     return exec st (.sort i n.id key rev deep)
   | "w.setdata" => some do
     let (i, t) ← getTree st j
     let n ← nodeAt t j "n"
-    let a ← match fieldD j "a" .null with
-      | .null => pure none
-      | x => do
-        let ai ← x.getNat?
-        let some a := st.pool[ai]? | throw "atom"
-        pure (some a)
+    let a ← optAtomJ st (fieldD j "a" .null)
     let did ← optDidJ (fieldD j "did" .null)
     let wc ← optBoolJ (fieldD j "clones" .null)
     let isRename := (fieldD j "via" .null) == Json.str "rename"
@@ -195,15 +234,18 @@ def handleWorld (st : St) (op : String) (j : Json) : Option (E (St × Json)) :=
     let (i, t) ← getTree st j
     let n ← nodeAt t j "n"
     let kind ← (← field j "kind").getStr?
-    let m := n.info.nmeta
-    let m' ← match kind with
-      | "set" => pure (metaSetV m (← (← field j "k").getStr?) (← (← field j "v").getStr?))
-      | "clear" => pure (metaClear m (← optStr (fieldD j "k" .null)))
-      | "update" => do
-        let vals ← metaOfJson (← field j "vals")
-        pure (metaUpdate m (vals.getD []) (← (fieldD j "replace" (.bool false)).getBool?))
-      | s => throw s!"meta kind {s}"
-    return exec st (.setMeta i n.id m')
+    match kind with
+    | "set" => return exec st (.metaSet i n.id (← (← field j "k").getStr?) (← (← field j "v").getStr?))
+    | "clear" => return exec st (.metaClear i n.id (← optStr (fieldD j "k" .null)))
+    | "update" =>
+      let vals ← metaOfJson (← field j "vals")
+      return exec st (.metaUpdate i n.id (vals.getD []) (← (fieldD j "replace" (.bool false)).getBool?))
+    | s => throw s!"meta kind {s}"
+  | "w.del" => some do
+    let (i, _) ← getTree st j
+    let a ← optAtomJ st (fieldD j "a" .null)
+    let asId ← optDidJ (fieldD j "did" .null)
+    return exec st (.delItem i a asId)
   | "w.filter" => some do
     let (i, t) ← getTree st j
     let n ← nodeAt t j "n"
